@@ -75,11 +75,12 @@ def relayout(rng, toks, comments=True, tight=True):
         if r < 0.45:
             parts.append(' ')
         elif r < 0.6:
-            parts.append(rng.choice(['  ', '\t', ' \t ', '   ']))
+            # every character the regular expressions count as white space, not only blank and tab
+            parts.append(rng.choice(['  ', '\t', ' \t ', '   ', '\x0c', '\x0b', ' \x1c', '\x1d ', '\x1e', '\x1f', '\r', '\x0c\x0b']))
         elif r < 0.85 or not comments:
             parts.append(rng.choice(['\n', '\n\n', ' \n  ', '\r\n']))
         else:
-            parts.append(rng.choice([' # a comment\n', '# hue 5 "x" end\n', ' #\n', '\n# define begin [ {\n']))
+            parts.append(rng.choice([' # a comment\n', '# hue 5 "x" end\n', ' #\n', '\n# define begin [ {\n', ' # was:\x0chue 300 set all\n', '# a\x0bb\x1cc\x1dd\x1ee "\n']))
     head = rng.choice(['', '', '\n', '  ', '# first line\n'])
     tail = rng.choice(['', '\n', ' ', ' # the end', '\n\n'])
     return head + ''.join(parts) + tail
@@ -247,8 +248,8 @@ def check_names(ctx, names):
 
 def check_strings(ctx, thorough):
     rng = ctx.rng
-    alpha = ''.join(chr(i) for i in range(32, 127) if chr(i) != '"') + '\t'
-    cases = ['#', '# not a comment', '{', '}', '[x]', 'end', 'a\\b', '\\n', "it's", '%', '{} {}', '12:30', 'H', ' ', '  lead and trail  ', '-', '+', 'and', 'or',
+    alpha = ''.join(chr(i) for i in range(32, 127) if chr(i) != '"') + '\t\x0b\x0c\x1c\x1d\x1e\x1f\r'
+    cases = ['left\x0cright', 'a\x0bb', 'x\x1cy\x1dz\x1e', '\x1f', 'cr\rcr', '#', '# not a comment', '{', '}', '[x]', 'end', 'a\\b', '\\n', "it's", '%', '{} {}', '12:30', 'H', ' ', '  lead and trail  ', '-', '+', 'and', 'or',
              '<=', 'print', 'a\\', '\\', '\\\\', 'été', '中', '\U0001F4A1 lamp', '\x7f', '']
     for _ in range(3000 if thorough else 250):
         cases.append(''.join(rng.choice(alpha) for _ in range(rng.randint(1, 12))))
